@@ -745,33 +745,33 @@ variable {K : Type} [Field K] [LinearOrder K] [IsStrictOrderedRing K]
 end Gen
 
 /-- evaluation at K = ℚ for the correspondence driver -/
-def Gen.dispatchAffine (tbl : FnTable) (name : String) (args : List ℚ) : Option (List ℚ) :=
-  match name, args with
-  | "point_transformed", [a0, a1, a2, a3, a4, a5, a6, a7, a8, a9, a10] => some (Gen.point_transformed a0 a1 a2 a3 a4 a5 a6 a7 a8 a9 a10)
-  | "at_apply", [a0, a1, a2, a3, a4, a5, a6, a7, a8, a9, a10, a11, a12, a13, a14, a15, a16, a17] => some (Gen.at_apply a0 a1 a2 a3 a4 a5 a6 a7 a8 a9 a10 a11 a12 a13 a14 a15 a16 a17)
-  | "at_apply_backwards", [a0, a1, a2, a3, a4, a5, a6, a7, a8, a9, a10, a11, a12, a13, a14, a15, a16, a17] => some (Gen.at_apply_backwards a0 a1 a2 a3 a4 a5 a6 a7 a8 a9 a10 a11 a12 a13 a14 a15 a16 a17)
-  | "at_translation", [a0, a1] => some (Gen.at_translation a0 a1)
-  | "at_scaling2", [a0, a1] => some (Gen.at_scaling2 a0 a1)
-  | "at_scaling1", [a0] => some (Gen.at_scaling1 a0)
-  | "at_reflection", [] => some (Gen.at_reflection)
-  | "at_rotation", [a0] => some (Gen.at_rotation (tbl.cos) (tbl.sin) a0)
-  | "at_translate", [a0, a1, a2, a3, a4, a5, a6, a7, a8, a9, a10] => some (Gen.at_translate a0 a1 a2 a3 a4 a5 a6 a7 a8 a9 a10)
-  | "at_scale2", [a0, a1, a2, a3, a4, a5, a6, a7, a8, a9, a10] => some (Gen.at_scale2 a0 a1 a2 a3 a4 a5 a6 a7 a8 a9 a10)
-  | "at_reflect", [a0, a1, a2, a3, a4, a5, a6, a7, a8] => some (Gen.at_reflect a0 a1 a2 a3 a4 a5 a6 a7 a8)
-  | "at_rotate", [a0, a1, a2, a3, a4, a5, a6, a7, a8, a9] => some (Gen.at_rotate (tbl.cos) (tbl.sin) a0 a1 a2 a3 a4 a5 a6 a7 a8 a9)
-  | "at_invert", [a0, a1, a2, a3, a4, a5, a6, a7, a8] => some (Gen.at_invert a0 a1 a2 a3 a4 a5 a6 a7 a8)
-  | "line_transformed", [a0, a1, a2, a3, a4, a5, a6, a7, a8, a9, a10, a11, a12] => some (Gen.line_transformed a0 a1 a2 a3 a4 a5 a6 a7 a8 a9 a10 a11 a12)
-  | "quad_transformed", [a0, a1, a2, a3, a4, a5, a6, a7, a8, a9, a10, a11, a12, a13, a14] => some (Gen.quad_transformed a0 a1 a2 a3 a4 a5 a6 a7 a8 a9 a10 a11 a12 a13 a14)
-  | "cubic_transformed", [a0, a1, a2, a3, a4, a5, a6, a7, a8, a9, a10, a11, a12, a13, a14, a15, a16] => some (Gen.cubic_transformed a0 a1 a2 a3 a4 a5 a6 a7 a8 a9 a10 a11 a12 a13 a14 a15 a16)
-  | "cubic_translated", [a0, a1, a2, a3, a4, a5, a6, a7, a8, a9] => some (Gen.cubic_translated a0 a1 a2 a3 a4 a5 a6 a7 a8 a9)
-  | "quad_translated", [a0, a1, a2, a3, a4, a5, a6, a7] => some (Gen.quad_translated a0 a1 a2 a3 a4 a5 a6 a7)
-  | "line_translated", [a0, a1, a2, a3, a4, a5] => some (Gen.line_translated a0 a1 a2 a3 a4 a5)
-  | "cubic_scaled", [a0, a1, a2, a3, a4, a5, a6, a7, a8] => some (Gen.cubic_scaled a0 a1 a2 a3 a4 a5 a6 a7 a8)
-  | "quad_scaled", [a0, a1, a2, a3, a4, a5, a6] => some (Gen.quad_scaled a0 a1 a2 a3 a4 a5 a6)
-  | "line_scaled", [a0, a1, a2, a3, a4] => some (Gen.line_scaled a0 a1 a2 a3 a4)
-  | "cubic_reversed", [a0, a1, a2, a3, a4, a5, a6, a7] => some (Gen.cubic_reversed a0 a1 a2 a3 a4 a5 a6 a7)
-  | "quad_reversed", [a0, a1, a2, a3, a4, a5] => some (Gen.quad_reversed a0 a1 a2 a3 a4 a5)
-  | "line_reversed", [a0, a1, a2, a3] => some (Gen.line_reversed a0 a1 a2 a3)
-  | "point_rotated", [a0, a1, a2, a3, a4] => some (Gen.point_rotated (tbl.sqrt) (tbl.cos) (tbl.sin) (tbl.atan2) a0 a1 a2 a3 a4)
-  | "alignmentTransformation", [a0, a1, a2, a3] => some (Gen.alignmentTransformation (tbl.cos) (tbl.sin) (tbl.atan2) a0 a1 a2 a3)
-  | _, _ => none
+def Gen.dispatchAffine (tbl : FnTable) (name : String) (a : List ℚ) : Option (List ℚ) :=
+  match name with
+  | "point_transformed" => if a.length = 11 then some (Gen.point_transformed (a.getD 0 0) (a.getD 1 0) (a.getD 2 0) (a.getD 3 0) (a.getD 4 0) (a.getD 5 0) (a.getD 6 0) (a.getD 7 0) (a.getD 8 0) (a.getD 9 0) (a.getD 10 0)) else none
+  | "at_apply" => if a.length = 18 then some (Gen.at_apply (a.getD 0 0) (a.getD 1 0) (a.getD 2 0) (a.getD 3 0) (a.getD 4 0) (a.getD 5 0) (a.getD 6 0) (a.getD 7 0) (a.getD 8 0) (a.getD 9 0) (a.getD 10 0) (a.getD 11 0) (a.getD 12 0) (a.getD 13 0) (a.getD 14 0) (a.getD 15 0) (a.getD 16 0) (a.getD 17 0)) else none
+  | "at_apply_backwards" => if a.length = 18 then some (Gen.at_apply_backwards (a.getD 0 0) (a.getD 1 0) (a.getD 2 0) (a.getD 3 0) (a.getD 4 0) (a.getD 5 0) (a.getD 6 0) (a.getD 7 0) (a.getD 8 0) (a.getD 9 0) (a.getD 10 0) (a.getD 11 0) (a.getD 12 0) (a.getD 13 0) (a.getD 14 0) (a.getD 15 0) (a.getD 16 0) (a.getD 17 0)) else none
+  | "at_translation" => if a.length = 2 then some (Gen.at_translation (a.getD 0 0) (a.getD 1 0)) else none
+  | "at_scaling2" => if a.length = 2 then some (Gen.at_scaling2 (a.getD 0 0) (a.getD 1 0)) else none
+  | "at_scaling1" => if a.length = 1 then some (Gen.at_scaling1 (a.getD 0 0)) else none
+  | "at_reflection" => if a.length = 0 then some (Gen.at_reflection) else none
+  | "at_rotation" => if a.length = 1 then some (Gen.at_rotation (tbl.cos) (tbl.sin) (a.getD 0 0)) else none
+  | "at_translate" => if a.length = 11 then some (Gen.at_translate (a.getD 0 0) (a.getD 1 0) (a.getD 2 0) (a.getD 3 0) (a.getD 4 0) (a.getD 5 0) (a.getD 6 0) (a.getD 7 0) (a.getD 8 0) (a.getD 9 0) (a.getD 10 0)) else none
+  | "at_scale2" => if a.length = 11 then some (Gen.at_scale2 (a.getD 0 0) (a.getD 1 0) (a.getD 2 0) (a.getD 3 0) (a.getD 4 0) (a.getD 5 0) (a.getD 6 0) (a.getD 7 0) (a.getD 8 0) (a.getD 9 0) (a.getD 10 0)) else none
+  | "at_reflect" => if a.length = 9 then some (Gen.at_reflect (a.getD 0 0) (a.getD 1 0) (a.getD 2 0) (a.getD 3 0) (a.getD 4 0) (a.getD 5 0) (a.getD 6 0) (a.getD 7 0) (a.getD 8 0)) else none
+  | "at_rotate" => if a.length = 10 then some (Gen.at_rotate (tbl.cos) (tbl.sin) (a.getD 0 0) (a.getD 1 0) (a.getD 2 0) (a.getD 3 0) (a.getD 4 0) (a.getD 5 0) (a.getD 6 0) (a.getD 7 0) (a.getD 8 0) (a.getD 9 0)) else none
+  | "at_invert" => if a.length = 9 then some (Gen.at_invert (a.getD 0 0) (a.getD 1 0) (a.getD 2 0) (a.getD 3 0) (a.getD 4 0) (a.getD 5 0) (a.getD 6 0) (a.getD 7 0) (a.getD 8 0)) else none
+  | "line_transformed" => if a.length = 13 then some (Gen.line_transformed (a.getD 0 0) (a.getD 1 0) (a.getD 2 0) (a.getD 3 0) (a.getD 4 0) (a.getD 5 0) (a.getD 6 0) (a.getD 7 0) (a.getD 8 0) (a.getD 9 0) (a.getD 10 0) (a.getD 11 0) (a.getD 12 0)) else none
+  | "quad_transformed" => if a.length = 15 then some (Gen.quad_transformed (a.getD 0 0) (a.getD 1 0) (a.getD 2 0) (a.getD 3 0) (a.getD 4 0) (a.getD 5 0) (a.getD 6 0) (a.getD 7 0) (a.getD 8 0) (a.getD 9 0) (a.getD 10 0) (a.getD 11 0) (a.getD 12 0) (a.getD 13 0) (a.getD 14 0)) else none
+  | "cubic_transformed" => if a.length = 17 then some (Gen.cubic_transformed (a.getD 0 0) (a.getD 1 0) (a.getD 2 0) (a.getD 3 0) (a.getD 4 0) (a.getD 5 0) (a.getD 6 0) (a.getD 7 0) (a.getD 8 0) (a.getD 9 0) (a.getD 10 0) (a.getD 11 0) (a.getD 12 0) (a.getD 13 0) (a.getD 14 0) (a.getD 15 0) (a.getD 16 0)) else none
+  | "cubic_translated" => if a.length = 10 then some (Gen.cubic_translated (a.getD 0 0) (a.getD 1 0) (a.getD 2 0) (a.getD 3 0) (a.getD 4 0) (a.getD 5 0) (a.getD 6 0) (a.getD 7 0) (a.getD 8 0) (a.getD 9 0)) else none
+  | "quad_translated" => if a.length = 8 then some (Gen.quad_translated (a.getD 0 0) (a.getD 1 0) (a.getD 2 0) (a.getD 3 0) (a.getD 4 0) (a.getD 5 0) (a.getD 6 0) (a.getD 7 0)) else none
+  | "line_translated" => if a.length = 6 then some (Gen.line_translated (a.getD 0 0) (a.getD 1 0) (a.getD 2 0) (a.getD 3 0) (a.getD 4 0) (a.getD 5 0)) else none
+  | "cubic_scaled" => if a.length = 9 then some (Gen.cubic_scaled (a.getD 0 0) (a.getD 1 0) (a.getD 2 0) (a.getD 3 0) (a.getD 4 0) (a.getD 5 0) (a.getD 6 0) (a.getD 7 0) (a.getD 8 0)) else none
+  | "quad_scaled" => if a.length = 7 then some (Gen.quad_scaled (a.getD 0 0) (a.getD 1 0) (a.getD 2 0) (a.getD 3 0) (a.getD 4 0) (a.getD 5 0) (a.getD 6 0)) else none
+  | "line_scaled" => if a.length = 5 then some (Gen.line_scaled (a.getD 0 0) (a.getD 1 0) (a.getD 2 0) (a.getD 3 0) (a.getD 4 0)) else none
+  | "cubic_reversed" => if a.length = 8 then some (Gen.cubic_reversed (a.getD 0 0) (a.getD 1 0) (a.getD 2 0) (a.getD 3 0) (a.getD 4 0) (a.getD 5 0) (a.getD 6 0) (a.getD 7 0)) else none
+  | "quad_reversed" => if a.length = 6 then some (Gen.quad_reversed (a.getD 0 0) (a.getD 1 0) (a.getD 2 0) (a.getD 3 0) (a.getD 4 0) (a.getD 5 0)) else none
+  | "line_reversed" => if a.length = 4 then some (Gen.line_reversed (a.getD 0 0) (a.getD 1 0) (a.getD 2 0) (a.getD 3 0)) else none
+  | "point_rotated" => if a.length = 5 then some (Gen.point_rotated (tbl.sqrt) (tbl.cos) (tbl.sin) (tbl.atan2) (a.getD 0 0) (a.getD 1 0) (a.getD 2 0) (a.getD 3 0) (a.getD 4 0)) else none
+  | "alignmentTransformation" => if a.length = 4 then some (Gen.alignmentTransformation (tbl.cos) (tbl.sin) (tbl.atan2) (a.getD 0 0) (a.getD 1 0) (a.getD 2 0) (a.getD 3 0)) else none
+  | _ => none
